@@ -15,6 +15,8 @@ def consts(clients, objs, prox, ln, ser, fine=False):
 
 
 def main(ctx):
+    from checks import mgrsrvcommon
+    mgrsrvcommon.run(ctx, 'C20')      # reference counting of one referent at server-mutex granularity
     thorough = ctx.tier == 'thorough'
     small = consts(2, 2, 3, 2, 3)
     wide = consts(2, 2, 3, 2, 4 if not thorough else 5)
